@@ -169,7 +169,26 @@ func (c *c06Case) Oracle() (bool, string) {
 	return true, ""
 }
 
-func (c *c06Case) Sx() string { return "" }
+func (c *c06Case) Sx() string {
+	if c.Fatal != "" {
+		return ""
+	}
+	if len(c.Flood) > 0 {
+		var fl []string
+		for i, f := range c.Flood {
+			var a, b []string
+			for _, x := range f {
+				a = append(a, sxBool(x))
+			}
+			for _, x := range c.FloodOut[i] {
+				b = append(b, sxBool(x))
+			}
+			fl = append(fl, sxL(sxList(a), sxList(b)))
+		}
+		return sxL("()", "()", sxList(fl), "n0")
+	}
+	return sxDbProgram(c.Opts, c.Steps, c.Sweeps, true)
+}
 func (c *c06Case) Nontrivial() bool {
 	if len(c.Flood) > 0 {
 		return true
